@@ -23,6 +23,7 @@ import (
 // ---- chainsim: an executable model of the blockchain party of wallet.Wallet ----
 
 type c15poll struct {
+	start   time.Duration // instant the wallet asked
 	at      time.Duration // instant the answer was given
 	err     bool          // injected error
 	aborted bool          // the wallet's own context ended the poll before the answer was due
@@ -38,6 +39,7 @@ type chainsim struct {
 	seqno     uint32 // stored seqno when active
 	dataCell  *boc.Cell
 	codeCell  *boc.Cell
+	noData    bool          // active account without a data cell
 	includeAt time.Duration // absolute instant at which the stored seqno advances (-1: never)
 	advanced  bool
 
@@ -72,6 +74,7 @@ func (c *chainsim) curSeqno() uint32 {
 }
 
 func (c *chainsim) GetSeqno(ctx context.Context, account ton.AccountID) (uint32, error) {
+	started := c.w.Now()
 	if d := c.lat("poll_lat_ms"); d > 0 {
 		// like a real lite client, the chain party honours the context it is given
 		t := time.NewTimer(d)
@@ -80,7 +83,7 @@ func (c *chainsim) GetSeqno(ctx context.Context, account ton.AccountID) (uint32,
 		case <-ctx.Done():
 			t.Stop()
 			c.mu.Lock()
-			c.polls = append(c.polls, c15poll{at: c.w.Now(), aborted: true})
+			c.polls = append(c.polls, c15poll{start: started, at: c.w.Now(), aborted: true})
 			c.mu.Unlock()
 			c.w.Probe("poll-aborted-by-caller-context")
 			return 0, ctx.Err()
@@ -90,7 +93,7 @@ func (c *chainsim) GetSeqno(ctx context.Context, account ton.AccountID) (uint32,
 	defer c.mu.Unlock()
 	i := len(c.polls)
 	if c.pollErr[i] {
-		c.polls = append(c.polls, c15poll{at: c.w.Now(), err: true})
+		c.polls = append(c.polls, c15poll{start: started, at: c.w.Now(), err: true})
 		c.w.Probe("poll-error-injected")
 		switch c.pollErrKind[i] {
 		case 1:
@@ -102,7 +105,7 @@ func (c *chainsim) GetSeqno(ctx context.Context, account ton.AccountID) (uint32,
 		return 0, errors.New("chainsim: injected GetSeqno error")
 	}
 	v := c.curSeqno()
-	c.polls = append(c.polls, c15poll{at: c.w.Now(), value: v})
+	c.polls = append(c.polls, c15poll{start: started, at: c.w.Now(), value: v})
 	return v, nil
 }
 
@@ -152,6 +155,9 @@ func (c *chainsim) GetAccountState(ctx context.Context, accountID ton.AccountID)
 		st.SumType = "AccountActive"
 		st.AccountActive.StateInit.Code = tlb.Maybe[tlb.Ref[boc.Cell]]{Exists: true, Value: tlb.Ref[boc.Cell]{Value: *c.codeCell}}
 		st.AccountActive.StateInit.Data = tlb.Maybe[tlb.Ref[boc.Cell]]{Exists: true, Value: tlb.Ref[boc.Cell]{Value: *c.dataCell}}
+		if c.noData {
+			st.AccountActive.StateInit.Data = tlb.Maybe[tlb.Ref[boc.Cell]]{}
+		}
 	}
 	return sa, nil
 }
@@ -341,7 +347,7 @@ func genC15(seed uint64, index int, tier string) *run.Plan {
 		p.P["send_lat_ms"] = []int{1, 50, 2000}[g.Intn(3)]
 	}
 	if g.Intn(3) == 0 {
-		p.P["poll_lat_ms"] = []int{1, 20, 500}[g.Intn(3)]
+		p.P["poll_lat_ms"] = []int{1, 20, 500, 2000, 7000}[g.Intn(5)]
 	}
 	if g.Intn(3) == 0 {
 		n := 1 + g.Intn(4)
@@ -351,6 +357,12 @@ func genC15(seed uint64, index int, tier string) *run.Plan {
 	}
 	if g.Intn(10) == 0 {
 		p.Faults = append(p.Faults, run.Fault{Kind: "poll-err-all"})
+	}
+	if p.P["state"] == 2 && g.Intn(6) == 0 {
+		// the chain party answers with an active account whose data cell is not a wallet's data (cut short, empty,
+		// or absent): there is no stored seqno to take
+		p.P["bad_data"] = 1 + g.Intn(3)
+		p.P["bad_bits"] = []int{1, 20, 31, 48, 63}[g.Intn(5)]
 	}
 	if g.Intn(4) == 0 {
 		// the same Wallet object sends again after the account changed underneath it (destroyed, re-deployed,
@@ -475,6 +487,22 @@ func execC15(t *testing.T, w *core.World, p *run.Plan, r *run.Result) {
 	chain.seqno = uint32(p.Get("seqno", 0))
 	chain.codeCell = wallet.GetCodeByVer(id.ver)
 	chain.dataCell = toLibCell(id.dataCell(chain.seqno))
+	badData := 0
+	if chain.state == "active" {
+		badData = p.Get("bad_data", 0)
+	}
+	switch badData {
+	case 1:
+		h := id.dataCell(chain.seqno)
+		if n := p.Get("bad_bits", 20); n < len(h.bits) {
+			h.bits = h.bits[:n]
+		}
+		chain.dataCell = toLibCell(h)
+	case 2:
+		chain.dataCell = boc.NewCell()
+	case 3:
+		chain.noData = true
+	}
 	for _, f := range p.Faults {
 		switch f.Kind {
 		case "poll-err":
@@ -502,9 +530,8 @@ func execC15(t *testing.T, w *core.World, p *run.Plan, r *run.Result) {
 		done     bool
 	}
 	var out outcome
-	var t0 time.Duration
 	w.At(0, "SendV2", func() {
-		t0 = w.Now()
+
 		go func() {
 			w.Tag("sender")
 			defer func() {
@@ -553,6 +580,22 @@ func execC15(t *testing.T, w *core.World, p *run.Plan, r *run.Result) {
 	if len(msgs) > wl_max(id.ver) {
 		if out.err == nil {
 			w.Violate("C15.O1", cls("O1-limit"), "more messages than the version supports were accepted")
+		}
+		return
+	}
+	if badData != 0 {
+		// an active account that shows no usable seqno: an error with nothing sent is the clean outcome; whatever
+		// is sent instead must still follow the rules for an active account (no initial state) - seqno not judged
+		w.Probe("active-account-with-unusable-data")
+		w.Visit(hash64(fmt.Sprintf("bad-data|%s|%d|%v", tag, badData, out.err == nil)))
+		if len(chain.sends) == 0 {
+			if out.err == nil {
+				w.Violate("C15.P", cls("P-sends"), "active account with undecodable data: SendV2 returned nil but sent nothing")
+			}
+			return
+		}
+		if hasInit, err := c15hasInit(chain.sends[0]); err == nil && hasInit {
+			w.Violate("C15.P2", cls("P2-init-active-bad-data"), fmt.Sprintf("the account is active (its data cell does not decode as wallet data, kind %d): the message carries an initial state (err=%v)", badData, out.err))
 		}
 		return
 	}
@@ -724,8 +767,14 @@ func execC15(t *testing.T, w *core.World, p *run.Plan, r *run.Result) {
 	if out.err != nil && out.at < chain.stateAnswerAt+W {
 		w.Violate("C15.O6", cls("O6-early-error"), fmt.Sprintf("the message was accepted and the window is %v, but SendV2 gave up %v after the state was read: %v (%d polls)", W, out.at-chain.stateAnswerAt, out.err, len(chain.polls)))
 	}
-	if limit := t0 + chain.maxLatency*3 + W + W/2 + chain.maxLatency*time.Duration(len(chain.polls)); out.at > limit {
-		w.Violate("C15.O4", cls("O4-late"), fmt.Sprintf("SendV2 returned at %v, later than %v", out.at, limit))
+	// O4: the window starts no later than the instant SendMessage returned; a poll that is in flight at the deadline may
+	// finish, and half a window is allowed for the polling period (not mirrored): later than that is not "by the deadline"
+	if limit := chain.sendAt + W + W/2 + 2*chain.maxLatency; out.at > limit {
+		w.Violate("C15.O4", cls("O4-late"), fmt.Sprintf("SendV2 returned at %v, later than %v (message accepted at %v, window %v, slowest answer %v, %d polls)", out.at, limit, chain.sendAt, W, chain.maxLatency, len(chain.polls)))
+	}
+	// O7: success rests on a poll that was issued within the window
+	if n := len(chain.polls); out.err == nil && n > 0 && chain.polls[n-1].start > chain.sendAt+W {
+		w.Violate("C15.O7", cls("O7-late-success"), fmt.Sprintf("SendV2 reported success from a poll issued %v after the message was accepted; the window is %v", chain.polls[n-1].start-chain.sendAt, W))
 	}
 	if sawAdvance {
 		w.Probe("confirmed")
@@ -753,6 +802,7 @@ func c15second(w *core.World, p *run.Plan, wl *wallet.Wallet, chain *chainsim, i
 	chain.state = []string{"none", "uninit", "active"}[p.Get("state2", 0)%3]
 	chain.seqno = uint32(p.Get("seqno2", 0))
 	chain.dataCell = toLibCell(id.dataCell(chain.seqno))
+	chain.noData = false
 	chain.includeAt = -1
 	before := len(chain.sends)
 	chain.mu.Unlock()
@@ -867,4 +917,26 @@ func init() {
 		Simulated:   []string{"the blockchain party (chainsim: account model, inclusion, errors, latencies)", "clock (testing/synctest): time.Now, time.Since, time.Sleep of the confirmation loop"},
 		Assumptions: []string{"wallet code cells are taken from the library's table (trusted); data and state-init cells are laid out and hashed by the harness", "boc.DeserializeBoc and the bit-level cell accessors are trusted to read back the captured message", "frozen accounts are not judged (the property does not say what to attach)", "A1-A3 (address half) is input sampling inside the workload, not what the simulator is for"},
 	}})
+}
+
+// c15hasInit tells whether a captured external message carries an initial state.
+func c15hasInit(payload []byte) (bool, error) {
+	cells, err := boc.DeserializeBoc(payload)
+	if err != nil || len(cells) != 1 {
+		return false, fmt.Errorf("not a single-root BOC: %v", err)
+	}
+	rd := &bitReader{c: fromLib(cells[0])}
+	rd.u(2)
+	rd.u(2)
+	rd.u(3)
+	rd.u(8)
+	rd.bytes(32)
+	if fee := rd.u(4); fee != 0 {
+		rd.u(int(fee) * 8)
+	}
+	has := rd.u(1) == 1
+	if rd.bad {
+		return false, errors.New("message cell too short")
+	}
+	return has, nil
 }
